@@ -100,6 +100,11 @@ func metaChoice(i int) map[string]string {
 		return map[string]string{"": "x", "a": "", "b": nastyS}
 	case 4:
 		return map[string]string{}
+	case 5:
+		// keys that look like their own query-string spelling ("meta-<key>")
+		return map[string]string{"meta-owner": "alice", "owner": "bob"}
+	case 6:
+		return map[string]string{"meta-": "v", "x-meta-y": "1", "meta-meta-z": "2"}
 	}
 	return nil
 }
@@ -155,7 +160,7 @@ func pinOptFields[T any](po func(*T) *api.PinOptions, withMode, withUpdate bool)
 		{"ShardSize", 3, func(v *T, i int) { po(v).ShardSize = []uint64{0, 100 * 1024 * 1024, math.MaxUint64}[i] }},
 		{"UserAllocations", 4, func(v *T, i int) { po(v).UserAllocations = peersChoice(i) }},
 		{"ExpireAt", 5, func(v *T, i int) { po(v).ExpireAt = times(i) }},
-		{"Metadata", 5, func(v *T, i int) { po(v).Metadata = metaChoice(i) }},
+		{"Metadata", 7, func(v *T, i int) { po(v).Metadata = metaChoice(i) }},
 		{"Origins", 4, func(v *T, i int) { po(v).Origins = originsChoice(i) }},
 	}
 	if withUpdate {
